@@ -331,7 +331,7 @@ theorem C10_key_valid (s : Bytes) (html : Bool) (hv : WellFormedUtf8 s) (h2 : ¬
 /-- the invalid-UTF-8 case (what `C10_value_partial` says beyond `C10_value_valid`): every byte that does not
 start a well-formed sequence comes back as U+FFFD — `"a\x80b"` comes back as `"a\uFFFDb"` -/
 example : parsesTo (valueDoc [97, 0x80, 98] false) (.arr [.str [97, 0xEF, 0xBF, 0xBD, 98]]) := by
-  have h := C10_value_partial [97, 0x80, 98] false (by decide) (by decide)
+  have h := C10_value_partial [97, 0x80, 98] false (by unfold reservedWord; decide) (by intro h; exact absurd h.2 (by decide))
   have e : sanitize [97, 0x80, 98] = [97, 0xEF, 0xBF, 0xBD, 98] := by decide
   rwa [e] at h
 
